@@ -8,9 +8,10 @@ Import ListNotations.
 Inductive scope := Recv | Hash | Hit | Miss | Pass | Fetch | Error | Deliver | Log.
 
 (* what `return (<ident>);` can name: the State constants of interpreter/state.go that the
-   parser accepts as an identifier, plus [SOther] for any other identifier *)
+   parser accepts as an identifier, plus [SUpgrade] (`return (upgrade)`: Fastly's websocket hand-over, not a State of the simulator, not in
+   the linter's lists) and [SOther] for any other identifier *)
 Inductive rstate :=
-  SLookup | SPass | SHash | SError | SRestart | SDeliver | SFetch | SDeliverStale | SHitForPass | SEnd | SOther.
+  SLookup | SPass | SHash | SError | SRestart | SDeliver | SFetch | SDeliverStale | SHitForPass | SEnd | SUpgrade | SOther.
 
 (* how the body of a lifecycle subroutine ends *)
 Inductive action :=
@@ -33,7 +34,7 @@ Definition rstate_eqb (a b : rstate) : bool :=
   match a, b with
   | SLookup, SLookup | SPass, SPass | SHash, SHash | SError, SError | SRestart, SRestart
   | SDeliver, SDeliver | SFetch, SFetch | SDeliverStale, SDeliverStale
-  | SHitForPass, SHitForPass | SEnd, SEnd | SOther, SOther => true
+  | SHitForPass, SHitForPass | SEnd, SEnd | SUpgrade, SUpgrade | SOther, SOther => true
   | _, _ => false
   end.
 
@@ -47,7 +48,7 @@ Definition action_eqb (a b : action) : bool :=
 
 Definition all_scopes : list scope := [Recv; Hash; Hit; Miss; Pass; Fetch; Error; Deliver; Log].
 Definition all_rstates : list rstate :=
-  [SLookup; SPass; SHash; SError; SRestart; SDeliver; SFetch; SDeliverStale; SHitForPass; SEnd; SOther].
+  [SLookup; SPass; SHash; SError; SRestart; SDeliver; SFetch; SDeliverStale; SHitForPass; SEnd; SUpgrade; SOther].
 Definition all_actions : list action :=
   ANone :: ABare :: AErrorStmt :: ARestartStmt :: AFail :: AAbsent :: map ARet all_rstates.
 
